@@ -164,6 +164,27 @@ Proof.
   try (destruct (first_satisfied _ _ _); [reflexivity|discriminate]).
 Qed.
 
+(** inherited global rules (controller repositories) only restrict, too *)
+Theorem inherited_globals_only_restrict w ps ctl i ref commit signer :
+  verify_entry w (with_controllers ps ctl) i ref commit signer = true -> verify_entry w ps i ref commit signer = true.
+Proof.
+  unfold verify_entry. cbn [ps_globals with_controllers ps_files policy_of].
+  destruct (beq ref PolicyRefB || beq ref AttestRefB); [auto|].
+  change (policy_of (with_controllers ps ctl)) with (policy_of ps).
+  change (all_principals (with_controllers ps ctl)) with (all_principals ps).
+  generalize (flat_map snd ctl). intros X.
+  destruct (match attest_before w i with None => AzNone | Some auths => _ end) as [| |sg]; try discriminate;
+  destruct (find_verifiers (policy_of ps) (GitScheme ++ ref)) as [vs| |]; try discriminate.
+  all: destruct (ps_globals ps) as [|g gs]; [destruct vs as [|v vs]; [reflexivity|]|].
+  all: cbn [app].
+  all: try (destruct vs as [|v' vs']); cbn iota beta.
+  all: try (destruct (first_satisfied _ _ _) as [acc|]; [|auto; fail]).
+  all: try (destruct X as [|x X]; [auto; fail|]).
+  all: try (destruct (verify _ true signer _) as [s|e1 e2]; [|auto; fail]).
+  all: try (intros _; reflexivity).
+  all: change (g :: gs ++ X) with ((g :: gs) ++ X); rewrite forallb_app; intros H; apply andb_true_iff in H; exact (proj1 H).
+Qed.
+
 (** *** top level *)
 Lemma combine_seq_nth {A} (l : list A) : forall s i e,
   In (i, e) (combine (seq s (List.length l)) l) -> s <= i /\ nth_error l (i - s) = Some e.
